@@ -174,7 +174,7 @@ def check_final(w, final_blocks, res, failures, limit, label='final', fresh=True
 
 def run_reorg_case(case, res, prop):
     '''case: tail (3 recipes), flush (over base heights), shape, d, branch (recipes), limit, ...'''
-    base_recipes = PREFIX + list(case['tail'])
+    base_recipes = list(case.get('prefix', PREFIX)) + list(case['tail'])
     act = case.get('activation', ACTIVATION)
     base = sim_for(base_recipes, b'', act)
     limit = case.get('limit', 200)
